@@ -12,7 +12,7 @@ rm -rf "$B"; mkdir -p "$B" bin
 GOMC_DIR=$PWD bin/gomc-rewrite -out "$B" -tags verif,mcbuild \
   github.com/bradenaw/juniper/stream github.com/bradenaw/juniper/chans github.com/bradenaw/juniper/parallel \
   github.com/bradenaw/juniper/xsync github.com/bradenaw/juniper/xtime github.com/bradenaw/juniper/iterator \
-  golang.org/x/sync/errgroup verif/props/sx verif/props/$lc/scn > "$B/rewrite.log" 2>&1 || { cat "$B/rewrite.log" >&2; echo "INFRASTRUCTURE ERROR: transformation failed" >&2; exit 2; }
+  golang.org/x/sync/errgroup verif/props/sx verif/props/$lc/scn $(cat props/$lc/mcpkgs 2>/dev/null) > "$B/rewrite.log" 2>&1 || { cat "$B/rewrite.log" >&2; echo "INFRASTRUCTURE ERROR: transformation failed" >&2; exit 2; }
 sed "s|^replace golang.org/x/sync => .*|replace golang.org/x/sync => $B/xsync|" go.mc.mod > "$B/go.mod"
 cp go.sum "$B/go.sum"
 go build -tags verif,mcbuild -modfile="$B/go.mod" -overlay "$B/overlay.json" -o "bin/${lc}_mc" ./props/$lc 2> "$B/build.log" || { cat "$B/build.log" >&2; echo "INFRASTRUCTURE ERROR: build of transformed code failed" >&2; exit 2; }
